@@ -183,6 +183,30 @@ def dedupActs : List (Nat × Action) → List (Nat × Action)
 def hasConflict (l : List (Nat × Action)) : Bool :=
   l.any fun e => l.any fun e' => e.1 == e'.1 && e.2 != e'.2
 
+/-! ### productive nonterminals (a decidable check of the hypothesis `Reduced G` of the
+error-position theorem; the marking loop every grammar text book has) -/
+
+/-- one pass over the client's productions: a left-hand side becomes productive when every symbol
+of the right-hand side is a terminal or already productive -/
+def prodRound (G : Grammar) (P : List Nat) : List Nat :=
+  G.prods.foldl (fun P p =>
+    if !P.contains p.lhs && p.rhs.all (fun x => !G.isNT x || P.contains x) then p.lhs :: P else P) P
+
+def productiveFix (G : Grammar) : Nat → List Nat → List Nat
+  | 0, P => P
+  | f + 1, P =>
+    let P' := prodRound G P
+    if P'.length = P.length then P else productiveFix G f P'
+
+def productiveSet (G : Grammar) : List Nat := productiveFix G (G.prods.length + 1) []
+
+/-- every nonterminal of the client's grammar derives a terminal string -/
+def allProductive (G : Grammar) : Bool := G.prods.all fun p => (productiveSet G).contains p.lhs
+
+/-- the executable check of `Reduced G` -/
+def reducedB (G : Grammar) : Bool :=
+  allProductive G && (G.prods.any (fun p => p.lhs == G.start) || !G.isNT G.start)
+
 structure Out where
   aut : Automaton
   /-- lookup arrays + FIRST table + the item sets in discovery (justification) order -/
